@@ -306,7 +306,230 @@ def gen_yuv():
     write_if_changed("GenYuv.v", body)
 
 
-GENERATORS = [gen_deblock, gen_yuv]
+# ---------------------------------------------------------------- h263 tables
+def f32_nearest(q):
+    """nearest binary32 (ties to even) of an exact rational; returns (sign, mantissa, exponent) with value = +-m*2^e"""
+    if q == 0:
+        return (0, 0, 0)
+    sign = 1 if q < 0 else 0
+    a = abs(q)
+    # find e with 2^23 <= a / 2^e < 2^24
+    e = 0
+    while a / Fraction(2) ** e >= 2 ** 24:
+        e += 1
+    while a / Fraction(2) ** e < 2 ** 23:
+        e -= 1
+    if e < -149:
+        e = -149
+    x = a / Fraction(2) ** e
+    m = x.numerator // x.denominator
+    rem = x - m
+    if rem > Fraction(1, 2) or (rem == Fraction(1, 2) and m % 2 == 1):
+        m += 1
+    if m == 2 ** 24:
+        m //= 2
+        e += 1
+    return (sign, m, e)
+
+
+def dec_fraction(tok):
+    v = re.sub(r"_?f(32|64)$", "", tok[1]).replace("_", "")
+    return Fraction(v)
+
+
+def leaf_bpe(x):
+    if x == ("path", "BlockPatternEntry::Stuffing"):
+        return "BpStuffing"
+    if x == ("path", "BlockPatternEntry::Invalid"):
+        return "BpInvalid"
+    if x[0] == "call" and x[1] == "BlockPatternEntry::Valid":
+        t, a, b = x[2]
+        if t[0] != "path" or not t[1].startswith("MacroblockType::"):
+            raise Untranslatable("mb type")
+        return "(BpValid %s %s %s)" % (t[1].split("::")[1], boolv(a), boolv(b))
+    raise Untranslatable("bpe leaf %r" % (x,))
+
+
+def boolv(x):
+    if x == ("path", "true"):
+        return "true"
+    if x == ("path", "false"):
+        return "false"
+    raise Untranslatable("bool %r" % (x,))
+
+
+def leaf_modb(x):
+    if x[0] == "tuple" and len(x[1]) == 2:
+        return "(%s, %s)" % (boolv(x[1][0]), boolv(x[1][1]))
+    raise Untranslatable("modb leaf")
+
+
+def leaf_cbpy(x):
+    if x == ("path", "None"):
+        return "None"
+    if x[0] == "call" and x[1] == "Some" and x[2][0][0] == "array" and len(x[2][0][1]) == 4:
+        return "(Some [%s])" % "; ".join(boolv(b) for b in x[2][0][1])
+    raise Untranslatable("cbpy leaf")
+
+
+def leaf_mvd(x):
+    if x == ("path", "None"):
+        return "None"
+    if x[0] == "call" and x[1] == "Some" and x[2][0][0] == "num":
+        q = dec_fraction(x[2][0]) * 2          # HalfPel::from(f) = floor(f * 2)
+        if q.denominator != 1:
+            raise Untranslatable("MVD leaf %s is not a multiple of 0.5" % x[2][0][1])
+        return "(Some %s)" % zlit(int(q))
+    raise Untranslatable("mvd leaf")
+
+
+def leaf_tcoef(x):
+    if x == ("path", "None"):
+        return "None"
+    if x[0] == "call" and x[1] == "Some":
+        y = x[2][0]
+        if y == ("path", "EscapeToLong"):
+            return "(Some EscapeToLong)"
+        if y[0] == "struct" and y[1] == "Run":
+            d = dict(y[2])
+            return "(Some (Run %s %s %s))" % (boolv(d["last"]), zlit(num_int(d["run"])), zlit(num_int(d["level"])))
+    raise Untranslatable("tcoef leaf %r" % (x,))
+
+
+def emit_tree(lit, leaf):
+    if lit is None or lit[0] != "array":
+        raise Untranslatable("table literal not found")
+    out = []
+    for e in lit[1]:
+        if e[0] == "call" and e[1] in ("Fork", "Entry::Fork"):
+            out.append("Fork %d %d" % (num_int(e[2][0]), num_int(e[2][1])))
+        elif e[0] == "call" and e[1] in ("End", "Entry::End"):
+            out.append("End %s" % leaf(e[2][0]))
+        else:
+            raise Untranslatable("table entry %r" % (e,))
+    return coq_list(out, 4)
+
+
+TABLE_HEADER = "(* GENERATED by tools/rs2v.py from %s -- do not edit. *)\nFrom H263V Require Import base.Prelude model.Types.\n\n"
+
+
+def gen_tables():
+    body = TABLE_HEADER % "h263/src/parser/{macroblock,block}.rs, h263/src/decoder/cpu/{rle,idct}.rs, h263/src/types.rs"
+    mb = read_src("h263/src/parser/macroblock.rs") or ""
+    bl = read_src("h263/src/parser/block.rs") or ""
+    items = [("mcbpc_i_table", mb, "MCBPC_I_TABLE", "entry bpe", leaf_bpe),
+             ("mcbpc_p_table", mb, "MCBPC_P_TABLE", "entry bpe", leaf_bpe),
+             ("modb_table", mb, "MODB_TABLE", "entry (bool * bool)", leaf_modb),
+             ("cbpy_table_intra", mb, "CBPY_TABLE_INTRA", "entry (option (list bool))", leaf_cbpy),
+             ("mvd_table", mb, "MVD_TABLE", "entry (option Z)", leaf_mvd),
+             ("tcoef_table", bl, "TCOEF_TABLE", "entry (option short_tcoef)", leaf_tcoef)]
+    for (name, src, const, ty, leaf) in items:
+        try:
+            body += "Definition %s : list (%s) :=\n  %s.\n\n" % (name, ty, emit_tree(parse_const(src, const), leaf))
+            STATUS["h263." + const] = "ok"
+        except Untranslatable as e:
+            body += "(* untranslatable %s: %s *)\nDefinition %s : list (%s) := [].\n\n" % (const, e, name, ty)
+            STATUS["h263." + const] = "untranslatable: %s" % e
+    # DQUANT arms of decode_dquant
+    try:
+        m = re.search(r"fn\s+decode_dquant\b.*?match\s+reader\.read_bits::<u8>\(2\)\?\s*\{(.*?)\}", mb, re.S)
+        if not m:
+            raise Untranslatable("decode_dquant match not found")
+        arms = re.findall(r"(\d+)\s*=>\s*(-?\d+)\s*,", m.group(1))
+        d = dict((int(a), int(b)) for a, b in arms)
+        if sorted(d) != [0, 1, 2, 3]:
+            raise Untranslatable("decode_dquant arms %r" % (arms,))
+        body += "Definition dquant_arms : list Z := [%s].\n\n" % "; ".join(zlit(d[i]) for i in range(4))
+        STATUS["h263.decode_dquant"] = "ok"
+    except Untranslatable as e:
+        body += "(* untranslatable: %s *)\nDefinition dquant_arms : list Z := [].\n\n" % e
+        STATUS["h263.decode_dquant"] = "untranslatable: %s" % e
+    # de-zig-zag map
+    rle = read_src("h263/src/decoder/cpu/rle.rs") or ""
+    try:
+        lit = parse_const(rle, "DEZIGZAG_MAPPING")
+        if lit is None or lit[0] != "array":
+            raise Untranslatable("DEZIGZAG_MAPPING not found")
+        vals = ["(%s, %s)" % (zlit(num_int(t[1][0])), zlit(num_int(t[1][1]))) for t in lit[1]]
+        body += "Definition dezigzag_mapping : list (Z * Z) :=\n  %s.\n\n" % coq_list(vals, 8)
+        STATUS["h263.DEZIGZAG_MAPPING"] = "ok"
+    except (Untranslatable, Exception) as e:
+        body += "(* untranslatable: %s *)\nDefinition dezigzag_mapping : list (Z * Z) := [].\n\n" % e
+        STATUS["h263.DEZIGZAG_MAPPING"] = "untranslatable: %s" % e
+    # IDCT basis: decimal literals -> nearest binary32 as (sign, mantissa, exponent)
+    idct = read_src("h263/src/decoder/cpu/idct.rs") or ""
+    try:
+        lit = parse_const(idct, "BASIS_TABLE")
+        if lit is None or lit[0] != "array":
+            raise Untranslatable("BASIS_TABLE not found")
+        rows = []
+        for r in lit[1]:
+            cells = []
+            for c in r[1]:
+                s_, m_, e_ = f32_nearest(dec_fraction(c))
+                cells.append("(%s, %d, %s)" % ("true" if s_ else "false", m_, zlit(e_)))
+            rows.append("[" + "; ".join(cells) + "]")
+        body += "Definition basis_table : list (list (bool * Z * Z)) :=\n  [\n   %s\n  ].\n\n" % ";\n   ".join(rows)
+        STATUS["h263.BASIS_TABLE"] = "ok"
+    except (Untranslatable, Exception) as e:
+        body += "(* untranslatable: %s *)\nDefinition basis_table : list (list (bool * Z * Z)) := [].\n\n" % e
+        STATUS["h263.BASIS_TABLE"] = "untranslatable: %s" % e
+    # option bits and masks
+    ty = read_src("h263/src/types.rs") or ""
+    pic = read_src("h263/src/parser/picture.rs") or ""
+    try:
+        m = re.search(r"pub\s+struct\s+PictureOption\s*:\s*u32\s*\{(.*?)\n    \}", ty, re.S)
+        if not m:
+            raise Untranslatable("PictureOption not found")
+        bits = dict((a, int(b, 2)) for a, b in re.findall(r"const\s+(\w+)\s*=\s*0b([01_]+)\s*;", m.group(1)))
+        order = ["USE_SPLIT_SCREEN", "USE_DOCUMENT_CAMERA", "RELEASE_FULL_PICTURE_FREEZE", "UNRESTRICTED_MOTION_VECTORS",
+                 "SYNTAX_BASED_ARITHMETIC_CODING", "ADVANCED_PREDICTION", "ADVANCED_INTRA_CODING", "DEBLOCKING_FILTER",
+                 "SLICE_STRUCTURED", "REFERENCE_PICTURE_SELECTION", "INDEPENDENT_SEGMENT_DECODING", "ALTERNATIVE_INTER_VLC",
+                 "MODIFIED_QUANTIZATION", "REFERENCE_PICTURE_RESAMPLING", "REDUCED_RESOLUTION_UPDATE", "ROUNDING_TYPE_ONE",
+                 "USE_DEBLOCKER"]
+        if sorted(bits) != sorted(order):
+            raise Untranslatable("PictureOption flag names changed: %s" % sorted(bits))
+        body += "Definition picture_option_bits : list Z := [%s].\n" % "; ".join(str(bits[k]) for k in order)
+
+        def mask(src, name):
+            mm = re.search(r"static\s+ref\s+" + name + r"\s*:\s*PictureOption\s*=\s*(.*?);", src, re.S)
+            if not mm:
+                raise Untranslatable(name + " not found")
+            v = 0
+            for t in mm.group(1).split("|"):
+                t = t.strip()
+                if not t.startswith("PictureOption::"):
+                    raise Untranslatable("mask term " + t)
+                v |= bits[t.split("::")[1]]
+            return v
+        body += "Definition opptype_options : Z := %d.\n" % mask(ty, "OPPTYPE_OPTIONS")
+        body += "Definition mpptype_options : Z := %d.\n" % mask(ty, "MPPTYPE_OPTIONS")
+        body += "Definition opptype_options_parser : Z := %d.\n\n" % mask(pic, "OPPTYPE_OPTIONS")
+        STATUS["h263.option_masks"] = "ok"
+    except Untranslatable as e:
+        body += "(* untranslatable: %s *)\nDefinition picture_option_bits : list Z := [].\nDefinition opptype_options : Z := 0.\nDefinition mpptype_options : Z := 0.\nDefinition opptype_options_parser : Z := 0.\n\n" % e
+        STATUS["h263.option_masks"] = "untranslatable: %s" % e
+    # standard picture sizes and HalfPel range constants
+    try:
+        sizes = re.findall(r"Self::(\w+)\s*=>\s*Some\(\((\d+),\s*(\d+)\)\)", ty)
+        d = dict((a, (int(b), int(c))) for a, b, c in sizes)
+        names = ["SubQcif", "QuarterCif", "FullCif", "FourCif", "SixteenCif"]
+        if sorted(d) != sorted(names):
+            raise Untranslatable("standard sizes %r" % (sizes,))
+        body += "Definition standard_sizes : list (Z * Z) := [%s].\n" % "; ".join("(%d, %d)" % d[n] for n in names)
+        hp = dict(re.findall(r"pub\s+const\s+(\w+)\s*:\s*Self\s*=\s*Self\((\d+)\)", ty))
+        hn = ["STANDARD_RANGE", "EXTENDED_RANGE", "EXTENDED_RANGE_QUADCIF", "EXTENDED_RANGE_SIXTEENCIF", "EXTENDED_RANGE_BEYONDCIF"]
+        if sorted(hp) != sorted(hn):
+            raise Untranslatable("HalfPel constants %r" % (hp,))
+        body += "Definition halfpel_ranges : list Z := [%s].\n" % "; ".join(hp[n] for n in hn)
+        STATUS["h263.sizes_and_ranges"] = "ok"
+    except Untranslatable as e:
+        body += "(* untranslatable: %s *)\nDefinition standard_sizes : list (Z * Z) := [].\nDefinition halfpel_ranges : list Z := [].\n" % e
+        STATUS["h263.sizes_and_ranges"] = "untranslatable: %s" % e
+    write_if_changed("GenTables.v", body)
+
+
+GENERATORS = [gen_deblock, gen_yuv, gen_tables]
 
 
 def main():
